@@ -22,7 +22,7 @@ DIGITS = frozenset("0123456789")
 # ----------------------------------------------------------------- utilities
 def hashable(v: Any) -> bool:
     # virtual paths are values identified by their text (see _equal): usable as dict keys / set members
-    return is_concrete(v) or isinstance(v, (EnumV, Text, CharSet, SeqStr)) or (isinstance(v, Opaque) and v.cls == "vpath")
+    return is_concrete(v) or isinstance(v, (EnumV, Text, CharSet, SeqStr)) or (isinstance(v, Opaque) and v.cls in ("vpath", "vpattern"))
 
 
 def dedupe(items: list) -> list:
@@ -893,7 +893,9 @@ def call_builtin(I, fv: BoundV, args: list, kwargs: dict, st, node=None) -> list
         if fn is not None:
             return fn(I, args, kwargs, st, node)
     if isinstance(recv, Opaque) and f"{recv.cls}.{name}" in EXT_CALLS:
-        return EXT_CALLS[f"{recv.cls}.{name}"](I, args, kwargs, st, node)
+        r = EXT_CALLS[f"{recv.cls}.{name}"](I, args, kwargs, st, node)
+        if r is not None:
+            return r
     if isinstance(recv, str) and name == "translate" and args:
         table = _as_dict(args[0], st)
         if table is not None and all(isinstance(k, int) and (v is None or isinstance(v, (str, int))) for k, v in table.items()):
@@ -1031,6 +1033,14 @@ def call_builtin(I, fv: BoundV, args: list, kwargs: dict, st, node=None) -> list
         return str_method_abstract(I, recv, name, args, st)
     if isinstance(recv, Text):
         return text_method(I, recv, name, args, kwargs, st)
+    if isinstance(recv, Opaque) and recv.cls == "re.Pattern":
+        r = re_pattern_method(I, recv, name, args, kwargs, st, node)
+        if r is not None:
+            return r
+    if isinstance(recv, Opaque) and recv.cls == "re.Match":
+        r = re_match_method(I, recv, name, args, kwargs, st)
+        if r is not None:
+            return r
     if isinstance(recv, Opaque):
         hook = I.probes.get("method:" + recv.cls.split(".")[0]) or I.probes.get("method:" + recv.cls) or I.probes.get("method:*")
         if hook:
@@ -1813,6 +1823,62 @@ def _ext_re_findall(I, args, kwargs, st, node):
     return [(Unknown("findall"), st)]
 
 
+def _re_const(kind: str):
+    """re.match / re.search / re.fullmatch of a CONSTANT pattern on a CONSTANT string: a library fact (None or a match whose groups are constants)."""
+
+    def f(I, args, kwargs, st, node):
+        import re as _re
+
+        if len(args) in (2, 3) and all(isinstance(a, str) for a in args[:2]) and all(isinstance(a, int) for a in args[2:]) and not kwargs:
+            try:
+                m = getattr(_re, kind)(*args)
+            except _re.error:
+                st.note(f"re.{kind}: invalid pattern")
+                return [(Unknown(kind), st)]
+            if m is None:
+                return [(None, st)]
+            return [(Opaque("re.Match", repr((kind,) + tuple(args))), st)]
+        return None  # abstract operands: fall back to the generic treatment of library calls
+
+    return f
+
+
+def _ext_re_compile(I, args, kwargs, st, node):
+    if len(args) in (1, 2) and isinstance(args[0], str) and all(isinstance(a, int) for a in args[1:]) and not kwargs:
+        return [(Opaque("re.Pattern", repr(tuple(args))), st)]
+    return None
+
+
+def re_pattern_method(I, recv, name, args, kwargs, st, node):
+    """pattern.match(s) / .search / .fullmatch / .findall / .sub on constants == the module-level function with the pattern's constants."""
+    spec = eval(recv.tag, {"__builtins__": {}})  # repr written by _ext_re_compile
+    if len(spec) == 1 and name in ("match", "search", "fullmatch") and len(args) == 1:
+        return _re_const(name)(I, [spec[0]] + list(args), kwargs, st, node)
+    if len(spec) == 1 and name == "findall" and len(args) == 1:
+        return _ext_re_findall(I, [spec[0]] + list(args), kwargs, st, node)
+    if name == "pattern" and not args:
+        return [(spec[0], st)]
+    return None
+
+
+def re_match_method(I, recv, name, args, kwargs, st):
+    """Methods of a match object produced by _re_const (recomputed from its constants)."""
+    import re as _re
+
+    spec = eval(recv.tag, {"__builtins__": {}})  # the repr written by _re_const: a tuple of str / int constants
+    m = getattr(_re, spec[0])(*spec[1:])
+    if m is None or kwargs or not all(isinstance(a, (int, str)) for a in args):
+        return None
+    if name in ("group", "groups", "start", "end", "span"):
+        try:
+            return [(getattr(m, name)(*args), st)]
+        except (IndexError, _re.error):
+            return None
+    if name == "groupdict":
+        return [(st.alloc(HObj("dict", fields=dict(m.groupdict(*args)))), st)]
+    return None
+
+
 def _ext_defaultdict(I, args, kwargs, st, node):
     """collections.defaultdict(factory[, mapping]): a heap dict that remembers its factory."""
     fields: dict = {}
@@ -1834,6 +1900,10 @@ def _ext_ordereddict(I, args, kwargs, st, node):
 
 
 EXT_CALLS = {
+    "ext:re.compile": _ext_re_compile,
+    "ext:re.match": _re_const("match"),
+    "ext:re.search": _re_const("search"),
+    "ext:re.fullmatch": _re_const("fullmatch"),
     "ext:operator.itemgetter": _ext_itemgetter,
     "ext:collections.defaultdict": _ext_defaultdict,
     "ext:collections.OrderedDict": _ext_ordereddict,
